@@ -233,7 +233,130 @@ fn run_prefilled(kvs: &[Kv], reference: &[u8], p: usize) -> Result<(), String> {
     .and_then(|x| x)
 }
 
+/// A sink that USES THE LIBRARY on the same thread inside every write call
+/// (a journaling or indexing writer): it builds a small map and a set with a
+/// wide node, looks a key up, then accepts at most `cap` bytes.
+struct Reentrant {
+    data: Vec<u8>,
+    cap: usize,
+    /// fail with an error from this call on
+    fail_at: Option<usize>,
+    calls: usize,
+}
+
+impl std::io::Write for Reentrant {
+    fn write(&mut self, buf: &[u8]) -> std::io::Result<usize> {
+        let mut m = fst::MapBuilder::memory();
+        let _ = m.insert("journal", self.calls as u64);
+        let _ = m.insert("journal2", 7);
+        if let Ok(b) = m.into_inner() {
+            if let Ok(f) = fst::Map::new(b) {
+                let _ = f.get("journal");
+            }
+        }
+        let mut s = fst::SetBuilder::memory();
+        for b in 0..40u8 {
+            let _ = s.insert([b'w', 0x30 + b]);
+        }
+        let _ = s.into_inner();
+        self.calls += 1;
+        if self.fail_at.map_or(false, |k| self.calls > k) {
+            return Err(std::io::Error::new(std::io::ErrorKind::Other, "re-entrant sink refuses"));
+        }
+        let n = buf.len().min(self.cap);
+        self.data.extend_from_slice(&buf[..n]);
+        Ok(n)
+    }
+    fn flush(&mut self) -> std::io::Result<()> {
+        Ok(())
+    }
+}
+
+fn run_reentrant(kvs: &[Kv], reference: &[u8], cap: usize) -> Result<(), String> {
+    guard(|| -> Result<(), String> {
+        let e = |x: fst::Error| format!("{:?}", x);
+        let mut b = fst::raw::Builder::new(Reentrant { data: vec![], cap, fail_at: None, calls: 0 }).map_err(e)?;
+        for (k, v) in kvs {
+            b.insert(k, *v).map_err(e)?;
+            if b.bytes_written() != b.get_ref().data.len() as u64 {
+                return Err(format!("bytes_written() = {} but the sink has accepted {} bytes", b.bytes_written(), b.get_ref().data.len()));
+            }
+        }
+        let sink = b.into_inner().map_err(e)?;
+        check_bytes("a sink that uses the library inside write()", &sink.data, reference, kvs)
+    })
+    .and_then(|x| x)
+    .map_err(|e| format!("re-entrant sink (at most {} bytes per call): {}", cap, e))
+}
+
+/// `bytes_written()` "always equals the number of bytes the sink has accepted
+/// so far" - also right after a call that failed half way through a buffer.
+fn run_bytes_written_after_failure(kvs: &[Kv], fail_at: usize, cap: usize) -> Result<bool, String> {
+    guard(|| -> Result<bool, String> {
+        let mut b = match fst::raw::Builder::new(Reentrant { data: vec![], cap, fail_at: Some(fail_at), calls: 0 }) {
+            Ok(b) => b,
+            Err(_) => return Ok(true), // failed inside new(): no builder to ask
+        };
+        let mut failed = false;
+        for (k, v) in kvs {
+            if b.insert(k, *v).is_err() {
+                failed = true;
+                break;
+            }
+        }
+        let (bw, acc) = (b.bytes_written(), b.get_ref().data.len() as u64);
+        if bw != acc {
+            return Err(format!("after a write call that failed (sink call {} refused, at most {} bytes per call before) bytes_written() = {} but the sink has accepted {} bytes", fail_at + 1, cap, bw, acc));
+        }
+        Ok(failed)
+    })
+    .and_then(|x| x)
+}
+
+/// C11's question about the re-entrant sink: once it refuses a call, the
+/// builder call in progress returns Err (no panic, no success). Returns
+/// whether the refusal was reached.
+pub fn reentrant_fault(kvs: &[Kv], fail_at: usize, cap: usize) -> Result<bool, String> {
+    guard(|| -> Result<bool, String> {
+        let mut b = match fst::raw::Builder::new(Reentrant { data: vec![], cap, fail_at: Some(fail_at), calls: 0 }) {
+            Ok(b) => b,
+            Err(fst::Error::Io(_)) => return Ok(true),
+            Err(e) => return Err(format!("new() failed with {:?}, expected an Io error", e)),
+        };
+        for (k, v) in kvs {
+            match b.insert(k, *v) {
+                Ok(()) => {}
+                Err(fst::Error::Io(_)) => return Ok(true),
+                Err(e) => return Err(format!("insert failed with {:?}, expected an Io error", e)),
+            }
+        }
+        let refused = b.get_ref().calls > fail_at;
+        match b.into_inner() {
+            Ok(s) => {
+                if refused || s.calls > fail_at {
+                    Err("the build was reported as finished although the sink refused a call".into())
+                } else {
+                    Ok(false)
+                }
+            }
+            Err(fst::Error::Io(_)) => Ok(true),
+            Err(e) => Err(format!("into_inner failed with {:?}, expected an Io error", e)),
+        }
+    })
+    .and_then(|x| x)
+    .map_err(|e| format!("a sink that uses the library inside write() and refuses sink call {} (at most {} bytes per call before): {}", fail_at + 1, cap, e))
+}
+
 pub fn replay(case: &Value) -> Result<String, String> {
+    if let Some(cap) = case["reentrant_cap"].as_u64() {
+        let kvs = kvs_from(&case["kvs"]);
+        let r = reference(&kvs)?;
+        return run_reentrant(&kvs, &r, cap as usize).map(|_| "bytes identical".into());
+    }
+    if let Some(k) = case["bytes_written_fail_at"].as_u64() {
+        let kvs = kvs_from(&case["kvs"]);
+        return run_bytes_written_after_failure(&kvs, k as usize, case["cap"].as_u64().unwrap() as usize).map(|_| "bytes_written() equals the accepted bytes".into());
+    }
     let kvs = match case["large"].as_str() {
         Some(n) => large_inputs().into_iter().find(|x| x.0 == n).map(|x| x.1).ok_or("unknown large input")?,
         None => kvs_from(&case["kvs"]),
@@ -251,7 +374,7 @@ pub fn replay(case: &Value) -> Result<String, String> {
 pub fn plan(tier: Tier) -> Plan {
     let mut p = Plan::new("C07", "model_checking");
     let thorough = tier.thorough();
-    p.rule = "for each input of a fixed list (empty set; only the empty key; one key; three keys with 5-byte values; a map using every node form; a 40-way fan-out whose 256-byte index goes through one write_all) the real builder runs over a scripted sink for EVERY answer sequence with <= d deviations (a deviation = any shorter non-empty acceptance of that call's buffer, or Err(Interrupted)); plus policy sinks deviating on every call (cap 1..16, Interrupted before every call, both, page-bounded writers, bursts of 2..300 consecutive Interrupted results before every accepted call), also on outputs of 12..70 KB, BufWriter capacities {1,2,3,8,64,8192} (with <= 1 deviation underneath; owned + into_inner, and borrowed + finish() of the raw, map and set builders) and Vecs pre-filled with {1,7,8,16,4096} bytes; oracle: sink bytes == in-memory build, bytes_written() == bytes accepted after every insert, result opens/verifies/has the model content. non-trivial = executions with at least one deviation".into();
+    p.rule = "[also: a sink that uses the library on the same thread inside every write() - bytes identical, bytes_written() exact; bytes_written() == bytes accepted right after a refused sink call, the refusal at every call index] for each input of a fixed list (empty set; only the empty key; one key; three keys with 5-byte values; a map using every node form; a 40-way fan-out whose 256-byte index goes through one write_all) the real builder runs over a scripted sink for EVERY answer sequence with <= d deviations (a deviation = any shorter non-empty acceptance of that call's buffer, or Err(Interrupted)); plus policy sinks deviating on every call (cap 1..16, Interrupted before every call, both, page-bounded writers, bursts of 2..300 consecutive Interrupted results before every accepted call), also on outputs of 12..70 KB, BufWriter capacities {1,2,3,8,64,8192} (with <= 1 deviation underneath; owned + into_inner, and borrowed + finish() of the raw, map and set builders) and Vecs pre-filled with {1,7,8,16,4096} bytes; oracle: sink bytes == in-memory build, bytes_written() == bytes accepted after every insert, result opens/verifies/has the model content. non-trivial = executions with at least one deviation".into();
     p.assumptions = vec!["the sink honours the io::Write contract (never reports more than it accepted)".into()];
     let shards = 16usize;
     for (name, kvs) in inputs() {
@@ -359,6 +482,31 @@ pub fn plan(tier: Tier) -> Plan {
                     if let Err(msg) = run_bufwriter(kvs, &r, cap, &[], pol) {
                         rep.violation(format!("{} bufwriter {} {:?}", name, cap, pol), msg, json!({"container": "bufwriter", "cap": cap, "kvs": kvs_json(kvs), "script": [], "policy": policy_json(pol)}));
                     }
+                }
+            }
+            for cap in [1usize, 3, 4096] {
+                st.evals += 1;
+                st.states += 1;
+                st.count("reentrant_sink_runs", 1);
+                if let Err(msg) = run_reentrant(kvs, &r, cap) {
+                    rep.violation(format!("{} re-entrant sink cap {}", name, cap), msg, json!({"reentrant_cap": cap, "kvs": kvs_json(kvs)}));
+                }
+            }
+            // bytes_written() right after a refused call, the refusal at every call index
+            for cap in [2usize, 4096] {
+                let mut k = 0;
+                loop {
+                    st.evals += 1;
+                    st.count("bytes_written_after_failure_runs", 1);
+                    match run_bytes_written_after_failure(kvs, k, cap) {
+                        Ok(true) => k += 1 + k / 40,
+                        Ok(false) => break,
+                        Err(msg) => {
+                            rep.violation(format!("{} bytes_written after failure at {} cap {}", name, k, cap), msg, json!({"bytes_written_fail_at": k, "cap": cap, "kvs": kvs_json(kvs)}));
+                            break;
+                        }
+                    }
+                    if k > 3000 { break; }
                 }
             }
             for pre in [1usize, 7, 8, 16, 4096] {
